@@ -60,29 +60,33 @@ theorem anteCall_eq (c : DegCtx Rat) (hasTerms : String → Bool) (a : ANode) :
       simp [bind, Except.bind, h2, degToPy]
 
 /-- **`Rule.activate_with` = `Op.activateWith`** (the model of C06: weight × degree of the loaded antecedent) and
-    `Op.Activation.activateWith` (the model of C08, which reads the product from the field `degree` of its rule) -/
-theorem code_activateWith (c : DegCtx Rat) (hasTerms : String → Bool) (w : X Rat) (a : ANode)
-    (hall : (varsOf a).all hasTerms = true) :
+    `Op.Activation.activateWith` (the model of C08, which reads the product from the field `degree` of its rule); when a
+    variable of the antecedent has lost its terms, the `ValueError` of the antecedent is passed on -/
+theorem code_activateWith (c : DegCtx Rat) (hasTerms : String → Bool) (w : X Rat) (a : ANode) :
     Rule_activate_with.run false w (anteCall c hasTerms a) {} = .error .runtime ∧
-    match Op.activateWith c w a with
-    | .error k => Rule_activate_with.run true w (anteCall c hasTerms a) {} = .error k.toPy
-    | .ok d => ∃ σ, Rule_activate_with.run true w (anteCall c hasTerms a) {} = .ok σ ∧ σ.ret = some d ∧
-        σ.self_activation_degree = d ∧
-        ∀ r : Rule Rat, r.degree = d →
-          { r with actDegree := σ.self_activation_degree } = Op.Activation.activateWith r := by
+    if (varsOf a).all hasTerms then
+      match Op.activateWith c w a with
+      | .error k => Rule_activate_with.run true w (anteCall c hasTerms a) {} = .error k.toPy
+      | .ok d => ∃ σ, Rule_activate_with.run true w (anteCall c hasTerms a) {} = .ok σ ∧ σ.ret = some d ∧
+          σ.self_activation_degree = d ∧
+          ∀ r : Rule Rat, r.degree = d →
+            { r with actDegree := σ.self_activation_degree } = Op.Activation.activateWith r
+    else Rule_activate_with.run true w (anteCall c hasTerms a) {} = .error .value := by
   have h := code_activateWith_callee w (anteCall c hasTerms a)
   refine ⟨h.1, ?_⟩
   have h2 := h.2
-  rw [anteCall_eq, hall] at h2 ⊢
-  simp only [if_true] at h2 ⊢
-  unfold Op.activateWith
-  cases hd : degree c a with
-  | error k => rw [hd] at h2; exact h2
-  | ok d =>
-    rw [hd] at h2
-    obtain ⟨σ, h1, h3, h4⟩ := h2
-    refine ⟨σ, h1, h3, h4, fun r hr => ?_⟩
-    simp only [Op.Activation.activateWith, h4, hr]
+  rw [anteCall_eq] at h2 ⊢
+  cases hall : (varsOf a).all hasTerms
+  · simpa [hall] using h2
+  · simp only [hall, if_true] at h2 ⊢
+    unfold Op.activateWith
+    cases hd : degree c a with
+    | error k => rw [hd] at h2; exact h2
+    | ok d =>
+      rw [hd] at h2
+      obtain ⟨σ, h1, h3, h4⟩ := h2
+      refine ⟨σ, h1, h3, h4, fun r hr => ?_⟩
+      simp only [Op.Activation.activateWith, h4, hr]
 
 /-- **`Rule.trigger` = `Op.Consequent.trigger`** (C07) **and `Op.Activation.trigger`** (C08).  A rule that is not
     loaded raises `RuntimeError`; a loaded one with the conclusions `cs` (not empty: the consequent is loaded) sets
